@@ -83,7 +83,8 @@ def sub(tier, cfg, out):
         json.dump(stateful(tier, cfg[3:]), open(out, 'w'))
         return 0
     if cfg.startswith('pri:'):
-        json.dump({'digest': pri_digest(cfg[4:])}, open(out, 'w'))
+        r = vf.pmap(pri_digest, [cfg[4:]], nproc=1, case_timeout=900)[0]          # in a child: a crash is a digest of its own, not a lost part
+        json.dump({'digest': r if isinstance(r, str) else 'CRASH ' + C07.classify(r.get('stderr', '') or r.get('harness_error', '') or r.get('crash', ''))[1][:300]}, open(out, 'w'))
         return 0
     if cfg.startswith('word:'):
         # word-level layer: the C05 catalogue (exact integer / GF(2)[x] formulas, which the primary configuration satisfies)
